@@ -88,6 +88,7 @@ type c12MapCaseState struct {
 	classes  map[string]bool
 	descs    []string
 	boundary bool
+	excluded int
 }
 
 func (s *c12MapCaseState) class(c string) { s.classes[c] = true }
@@ -326,8 +327,25 @@ func (s *c12MapCaseState) mergeHistory(t *rapid.T, label string) {
 		collided = append(collided, w.ks.Decode(val.Tuple(l.Key)).String())
 		return tree.Diff{}, false
 	})
+	// known finding C14-wide-row-merge-non-canonical (while listed open): when the merged map has
+	// rows behind the right side's last key, the patch merge may keep right's last leaf as a chunk
+	// or fail with unsorted patches; such merge histories are counted as excluded, not compared
+	knownTail := R.Len() > 0 && s.T.Len() > 0 && vt.CompareRows(R.E[R.Len()-1].K, s.T.E[s.T.Len()-1].K) < 0 &&
+		vh.OpenFinding("C14", c14WideFinding)
 	if err != nil {
+		if knownTail && strings.Contains(err.Error(), "expected patches to be sorted by key") {
+			s.excluded++
+			s.class("merge_excluded_known_tail")
+			return
+		}
 		t.Fatalf("%s: MergeMaps: %v", who, err)
+	}
+	if knownTail && merged.HashOf() != s.h0.HashOf() {
+		if got, rerr := w.readMap(merged); rerr == nil && entriesEqual(got, s.T.E) {
+			s.excluded++
+			s.class("merge_excluded_known_tail")
+			return
+		}
 	}
 	if len(collided) > 0 {
 		t.Fatalf("%s: collision handler invoked for %d keys (first %s) although every key is changed on one side only or identically on both", who, len(collided), collided[0])
@@ -462,6 +480,9 @@ func c12MapCase(t *rapid.T, rec *vh.Recorder) {
 	}
 	sort.Strings(cl)
 	desc := fmt.Sprintf("%s k=%v v=%v n=%d target{%s} | %s", flavor, ks, vs, s.T.Len(), c12Join(s.gen.ops, 10), strings.Join(s.descs, " | "))
+	if s.excluded > 0 {
+		rec.Excluded(s.excluded)
+	}
 	rec.Case(desc, nontrivial, cl...)
 }
 
@@ -1029,7 +1050,8 @@ func TestVerif_C12(t *testing.T) {
 		rec := vh.NewRecorder("C12", "maps", "exploration", c12MapRule,
 			"all tuples are canonical (no explicit trailing NULL field), as every tuple built by val.TupleBuilder is",
 			"key+value of one entry stays below 61 KB (a pair above 64 KB cannot be stored in a node at all)",
-			"JSON documents are not covered here")
+			"JSON documents are not covered here",
+			"while known finding C14-wide-row-merge-non-canonical is open, a merge-route history whose merged map has rows behind the right side's last key and which shows that finding's failure (same rows but other root, or 'patches not sorted') is counted as excluded_known")
 		defer rec.Write(t)
 		vh.Check(t, "histories", 450, 700, func(rt *rapid.T) { c12MapCase(rt, rec) })
 	})
